@@ -15,7 +15,6 @@ SPEC = {
              "dust kept/normal/insufficient-min/insufficient-with-change/insufficient-dust/dust-inputs/strategy-error], dust action, "
              "NU6.3 side, ephemeral kind, total placement) and non-trivial when at least two pools are involved or the total sits on a "
              "boundary. fee_required calls are distinct by (rule kind, which term dominates, grace floor, error kind)."),
-    "exhaustive_scope": "",
     "assumptions": [
         "padded bundle sizes come from sapling-crypto BundleType::num_spends/num_outputs and orchard BundleType::num_actions with "
         "BundleVersion::default_flags (dependency crates, trusted)",
@@ -24,42 +23,56 @@ SPEC = {
         "legal shapes for refusals: no change output only when all shielded flows are zero and no change memo is in effect; otherwise "
         "1..target change outputs in one pool (one P2PKH output when transparent change is allowed and the flows are transparent)",
         "a zero-valued change output is always allowed (documented behaviour of every DustAction)",
+        "the dust threshold of a policy without an explicit threshold is the fee rule's marginal fee",
+        "the final shape's Ironwood bundle is unpadded exactly for the documented canonical crossing (one Orchard spend, no Ironwood "
+        "spend, a single Ironwood output of {1,2,5}*10^k zatoshi within [0.01, 10000] ZEC, no Ironwood change, at most one Orchard "
+        "change output, no change or ephemeral output elsewhere, anchor on the bucket grid); the builder reproduces the dummy-output "
+        "counts the balance records, so the fee is compared with the recorded shape and the recorded shape with this rule",
+        "a refusal for lack of funds is justified when the cheapest with-change shape (one change output, any candidate pool) is not "
+        "affordable, or (DustAction::Reject) some legal shape would leave a non-zero change below the threshold; with "
+        "min_split_output_value == 0 the strategy never falls back to fewer outputs, so every split count may justify it",
         "rustc u128 arithmetic as the exact-integer reference",
     ],
     "tiers": {
-        "quick": {"shards": 8, "budget_s": 45},
-        "thorough": {"shards": 16, "budget_s": 600},
+        "quick": {"shards": 8, "budget_s": 60},
+        "thorough": {"shards": 16, "budget_s": 900},
     },
+    # about a fifth of what an unloaded quick run observes (the time budget may cut a run short on a busy
+    # machine); thorough = 20 x that.
     "floors": {
         "quick": {
-            "evaluations": 300_000, "distinct_nontrivial": 3000,
-            "ok_balances": 100_000, "ok_fee_exact": 80_000, "insufficient_funds": 30_000,
-            "fee_required_ok": 50_000, "fee_required_with_ironwood_actions": 5_000, "fee_required_grace_floor": 1_000,
-            "fee_required_unknown_inputs": 500, "fee_required_overflow": 500,
-            "ok_exact_no_change": 500, "ok_zero_valued_change": 2_000, "ok_dust_folded_into_fee": 1_000,
-            "ok_dust_change_allowed": 1_000, "ok_split_change": 5_000, "ok_split_fewer_than_target": 1_000,
-            "ok_split_with_remainder": 1_000,
-            "ok_change_transparent": 1_000, "ok_change_sapling": 5_000, "ok_change_orchard": 5_000, "ok_change_ironwood": 5_000,
-            "ok_pre_nu6_3": 20_000, "ok_post_nu6_3": 20_000, "ok_orchard_change_post_nu6_3": 1_000,
-            "ok_ironwood_change_where_orchard_was_preferred": 2_000, "turnstile_boundary_cases": 10_000,
-            "ok_canonical_crossing_unpadded": 1_000, "anchor_on_grid_cases": 50_000, "anchor_off_grid_cases": 50_000,
-            "ok_with_ephemeral_balance": 2_000,
-            "insufficient_below_min_fee": 5_000, "insufficient_below_fee_with_change": 2_000,
-            "insufficient_dust_change_rejected": 1_000,
-            "boundary_total_cases": 100_000, "lattice_cases": 10_000,
-            "multi_output_strategy_cases": 100_000, "single_output_strategy_cases": 100_000,
+            "anchor_off_grid_cases": 300_000, "anchor_on_grid_cases": 500_000, "boundary_total_cases": 700_000,
+            "distinct_nontrivial": 100_000, "evaluations": 1_000_000, "fee_required_grace_floor": 10_000,
+            "fee_required_ok": 100_000, "fee_required_overflow": 10_000, "fee_required_unknown_inputs": 10_000,
+            "fee_required_with_ironwood_actions": 100_000, "insufficient_below_fee_with_change": 70_000,
+            "insufficient_below_min_fee": 80_000, "insufficient_dust_change_rejected": 30_000, "insufficient_funds": 100_000,
+            "lattice_cases": 65_520, "max_change_outputs": 8, "multi_output_strategy_cases": 400_000, "ok_balances": 600_000,
+            "ok_canonical_crossing_unpadded": 30_000, "ok_change_ironwood": 100_000, "ok_change_orchard": 200_000,
+            "ok_change_sapling": 50_000, "ok_change_transparent": 10_000, "ok_dust_change_allowed": 40_000,
+            "ok_dust_change_kept_under_add_to_fee": 7_000, "ok_dust_folded_into_fee": 30_000, "ok_exact_no_change": 10_000,
+            "ok_fee_exact": 500_000, "ok_ironwood_change_where_orchard_was_preferred": 90_000,
+            "ok_orchard_change_post_nu6_3": 100_000, "ok_post_nu6_3": 300_000, "ok_pre_nu6_3": 200_000,
+            "ok_split_change": 70_000, "ok_split_fewer_than_target": 20_000, "ok_split_with_remainder": 40_000,
+            "ok_with_ephemeral_balance": 70_000, "ok_zero_valued_change": 50_000, "single_output_strategy_cases": 400_000,
+            "strategy_error_unknown_p2sh": 20_000, "turnstile_boundary_cases": 80_000,
         },
         "thorough": {
-            "evaluations": 10_000_000, "distinct_nontrivial": 10_000,
-            "ok_balances": 3_000_000, "ok_fee_exact": 2_500_000, "insufficient_funds": 1_000_000,
-            "fee_required_ok": 1_500_000, "fee_required_with_ironwood_actions": 100_000,
-            "ok_exact_no_change": 10_000, "ok_zero_valued_change": 50_000, "ok_dust_folded_into_fee": 30_000,
-            "ok_split_change": 150_000, "ok_split_fewer_than_target": 30_000,
-            "ok_change_transparent": 30_000, "ok_change_sapling": 150_000, "ok_change_orchard": 150_000, "ok_change_ironwood": 150_000,
-            "ok_orchard_change_post_nu6_3": 30_000, "ok_ironwood_change_where_orchard_was_preferred": 50_000,
-            "turnstile_boundary_cases": 300_000, "ok_canonical_crossing_unpadded": 30_000,
-            "insufficient_below_fee_with_change": 50_000, "insufficient_dust_change_rejected": 30_000,
-            "boundary_total_cases": 3_000_000, "lattice_cases": 10_000,
+            "anchor_off_grid_cases": 7_000_000, "anchor_on_grid_cases": 10_000_000, "boundary_total_cases": 10_000_000,
+            "distinct_nontrivial": 200_000, "evaluations": 20_000_000, "fee_required_grace_floor": 200_000,
+            "fee_required_ok": 3_000_000, "fee_required_overflow": 300_000, "fee_required_unknown_inputs": 300_000,
+            "fee_required_with_ironwood_actions": 2_000_000, "insufficient_below_fee_with_change": 1_000_000,
+            "insufficient_below_min_fee": 1_000_000, "insufficient_dust_change_rejected": 600_000,
+            "insufficient_funds": 3_000_000, "lattice_cases": 65_520, "max_change_outputs": 8,
+            "multi_output_strategy_cases": 8_000_000, "ok_balances": 10_000_000, "ok_canonical_crossing_unpadded": 600_000,
+            "ok_change_ironwood": 3_000_000, "ok_change_orchard": 5_000_000, "ok_change_sapling": 1_000_000,
+            "ok_change_transparent": 300_000, "ok_dust_change_allowed": 800_000,
+            "ok_dust_change_kept_under_add_to_fee": 100_000, "ok_dust_folded_into_fee": 700_000, "ok_exact_no_change": 300_000,
+            "ok_fee_exact": 10_000_000, "ok_ironwood_change_where_orchard_was_preferred": 1_000_000,
+            "ok_orchard_change_post_nu6_3": 2_000_000, "ok_post_nu6_3": 6_000_000, "ok_pre_nu6_3": 5_000_000,
+            "ok_split_change": 1_000_000, "ok_split_fewer_than_target": 500_000, "ok_split_with_remainder": 900_000,
+            "ok_with_ephemeral_balance": 1_000_000, "ok_zero_valued_change": 1_000_000,
+            "single_output_strategy_cases": 8_000_000, "strategy_error_unknown_p2sh": 500_000,
+            "turnstile_boundary_cases": 1_000_000,
         },
     },
     "manifest": {
